@@ -21,7 +21,7 @@ pub fn spec() -> Spec {
         replay,
         nshards: |_| 16,
         case_cap_s: |t| t.pick(900, 14400),
-        rule: "one case per admissible 3-dimensional symbol (spherical tiles and vertex figures by the reference model, branching in {1,2,3,4,6}) on every class of D-sets of size <= M, plus the 20 corpus symbols. Per case: the verdict under EVERY schedule of the simplify choice point with at most 1 deviation (G3; symbols that never reach simplify have the single empty schedule); the verdict of every relabeling (all for size <= 3, systematic family above), of the dual and of every entry of covers(s, k) that the reference model accepts as an admissible covering. Oracle: a verdict is returned (no panic, no time-out); the verdict class is the same across schedules, relabelings and dual; never yes on a symbol and no on one of its covers or vice versa; every yes is re-derived: pseudo_toroidal_cover is a finite oriented branch-free covering (reference model), its H1 is Z^3 (textbook presentation + invariant factors) and it has 7 / 13 classes of subgroups of index 2 / 3; every corpus symbol gets yes. Non-trivial = the symbol passes the invariant filter (reaches the cover construction) or is a corpus symbol.",
+        rule: "one case per admissible 3-dimensional symbol (spherical tiles and vertex figures by the reference model, branching in {1,2,3,4,6}) on every class of D-sets of size <= M, plus the 20 corpus symbols. Per case: the verdict under EVERY schedule of the simplify choice point with at most 1 deviation (G3; symbols that never reach simplify have the single empty schedule); the verdict of every relabeling (all for size <= 3, systematic family above), of the dual and of every entry of covers(s, k) that the reference model accepts as an admissible covering. Oracle: a verdict is returned (no panic, no time-out); the verdict class is the same across schedules, relabelings and dual; never yes on a symbol and no on one of its covers or vice versa; every yes is re-derived: pseudo_toroidal_cover is a finite oriented branch-free covering (reference model), its H1 is Z^3 (textbook presentation + invariant factors) and it has 7 / 13 classes of subgroups of index 2 / 3; every corpus symbol gets yes, and so does every [quick: a spread of the] relabeling of every corpus symbol of 4-6 chambers and of its dual (default schedule). Non-trivial = the symbol passes the invariant filter (reaches the cover construction) or is a corpus symbol.",
         assumptions: &["the completeness of the table of space-group invariants (src/data/euclideanInvariants.data) cannot be re-derived offline; what is checked is totality, invariance, cover-consistency, certificate soundness of every yes, and the corpus", "covers(s, k) supplies covers; each is verified to be a covering of the symbol by the reference model", "the 7/13 subgroup counts of a certificate use the crate's presentation and low-index enumeration (validated by C09/C12)"],
         bounds: |t| json!({"admissible_max_size": t.pick(3, 4), "choice_deviation_bound": 1, "cover_sheets": t.pick(2, 3), "prism_family_base_2d_max_size": t.pick(4, 5), "lattice_family": {"roots": "corpus symbols with <= 3 chambers", "sheets_per_level": if t.is_thorough() { json!([4, 3, 2, 2]) } else { json!([4, 2]) }, "max_chambers": t.pick(12, 24), "expanded_per_fingerprint": t.pick(1, 2)}, "cover_sheets_above_a_yes_symbol_of_at_most_6_chambers": t.pick(4, 6), "such_covers_have_at_most_chambers": t.pick(12, 18)}),
     }
@@ -217,6 +217,33 @@ fn run(ctx: &mut Ctx) {
     }
     if ctx.nviolations() > 0 {
         return;
+    }
+    // every [a spread of the] relabeling of every corpus symbol and of its dual, default schedule: each must get
+    // yes.  A relabeling of the base symbol scrambles the numbering of the pseudo-toroidal cover (48-288 chambers)
+    // that goes through simplify far more than the systematic renumberings do (cf. defect 21).
+    for (_, s) in corpus() {
+        if s.n < 4 {
+            continue; // all relabelings of the smaller ones are part of check_symbol
+        }
+        let ps = perms(s.n);
+        let step = if tier.is_thorough() { 1 } else { match s.n { 4 => 1, 5 => 7, _ => 37 } };
+        for (tag, b) in [("relabeling", s.clone()), ("relabeling of the dual", s.dual())] {
+            for p in ps.iter().step_by(step) {
+                if !ctx.take() {
+                    continue;
+                }
+                let t = b.relabel(p);
+                let vcase = json!({"family": "corpus-relabelings", "sym": rs_to_json(&s), "variant": tag, "variant_sym": rs_to_json(&t)});
+                ctx.announce(&vcase);
+                ctx.ops(1);
+                ctx.add("corpus_relabelings", 1);
+                let v = verdict(&t);
+                if v.class() != 'Y' {
+                    ctx.violation("corpus", vcase, format!("a {} of a known-euclidean symbol gets {:?}", tag, v), s.n as u64);
+                    return;
+                }
+            }
+        }
     }
     lattice_family(ctx);
     if ctx.nviolations() > 0 {
